@@ -248,11 +248,15 @@ def check(case):
         if value[exp[1]] != exp[3]:
             return Verdict(False, "%s returned objective value %d, the known optimum is %d" % (where, value[exp[1]], exp[3]), True, tags)
     elif what == "count":
+        if model == "golomb":
+            c = _cached("count_golomb", args[0], bool(args[1]))
+            if len(sols) != c:
+                return Verdict(False, "%s enumerated %d rulers, brute force finds %d%s" % (where, len(sols), c, " up to reflection" if args[1] else ""), True, tags)
         if exp[0] == "count" and len(sols) != exp[1]:
             return Verdict(False, "%s enumerated %d solutions, the known count is %d" % (where, len(sols), exp[1]), True, tags)
         if exp[0] == "sat" and bool(sols) != exp[1]:
             return Verdict(False, "%s is %s, the base problem is %s" % (where, "satisfiable" if sols else "unsatisfiable", "satisfiable" if exp[1] else "unsatisfiable"), True, tags)
-        if exp[0] == "opt":
+        if exp[0] == "opt" and sols:
             best = min(s[exp[1]] for s in sols) if exp[2] == "min" else max(s[exp[1]] for s in sols)
             if best != exp[3]:
                 return Verdict(False, "%s: best objective among all solutions is %d, known optimum %d" % (where, best, exp[3]), True, tags)
@@ -298,9 +302,14 @@ def instances(tier, interpreted):
         add("magic_sequence", [n], ["count"], heavy=(n > 6))
     for n in (9, 10, 12) if big else (9,):
         add("magic_sequence", [n], ["count"], heavy=True)
-    for n in (3, 4, 5):
+    for n in (2, 3, 4, 5):
         for sym in (True, False):
             add("golomb", [n, sym], ["opt"])
+    for n in (2, 3, 4):
+        for sym in (True, False):
+            add("golomb", [n, sym], ["count"])
+    for sym in (True, False):
+        add("golomb", [5, sym], ["count"], heavy=True)
     for n in (6, 7) + ((8,) if big else ()):
         add("golomb", [n, True], ["opt"], heavy=True)
     add("golomb", [6, False], ["opt"], heavy=True)
@@ -368,7 +377,8 @@ def c20_case(draw, tier, interpreted):
     if model == "magic_sequence" and draw(st.booleans()):
         cfg["decision"] = "reversed"
     case = {"model": model, "args": args, "cfg": cfg, "what": what}
-    if what in ("count", "opt") and model not in ("tsp",) and draw(st.integers(0, 3)) == 0:
+    huge = model == "golomb" and what == "count" and args[0] >= 5  # > 10^5 solutions: more messages than the in-process transport accepts
+    if what in ("count", "opt") and model not in ("tsp",) and not huge and draw(st.integers(0, 3)) == 0:
         case["mp"] = draw(st.integers(1, 3))
         case["schedule"] = draw(st.lists(st.integers(0, 2), max_size=10))
     return case
